@@ -106,8 +106,34 @@ def _switch_branches(fn, var):
     return out
 
 
+# constants of the pinned tree: used ONLY as a fallback so that the model still builds when a section of hashes.py can no
+# longer be translated; the section's error is reported and counts as a broken obligation of the properties that rest on it
+PINNED_FASTHASH = {"fh_shift_a": 23, "fh_mix_mul": 0x2127599BF4325C37, "fh_shift_b": 47, "fh_m": 0x880355F21E6D1965, "fh32_shift": 32,
+                   "fh_tails": {n: ([(i, 8 * i) for i in range(n - 1, 0, -1)], 0) for n in range(1, 8)}}
+PINNED_MURMUR = {"mm_fmix_shift_a": 16, "mm_fmix_mul_a": 0x85EBCA6B, "mm_fmix_shift_b": 13, "mm_fmix_mul_b": 0xC2B2AE35, "mm_fmix_shift_c": 16,
+                 "mm_c1": 0xCC9E2D51, "mm_c2": 0x1B873593, "mm_c3": 0xE6546B64, "mm_rot_k": 15, "mm_rot_h": 13, "mm_h_mul": 5,
+                 "mm_tails": {n: ([(i, 8 * i) for i in range(n - 1, 0, -1)], 0) for n in range(1, 4)}}
+
+
 def hash_constants():
+    """returns (constants, {section: error}) — sections `fasthash` and `murmur3` are translated independently"""
     src, tree = _parse(os.path.join(REPO, "sketchnu", "hashes.py"))
+    errors = {}
+    c = {}
+    try:
+        c.update(_fasthash_constants(tree))
+    except TranslateError as e:
+        errors["fasthash"] = str(e)
+        c.update(PINNED_FASTHASH)
+    try:
+        c.update(_murmur_constants(tree))
+    except TranslateError as e:
+        errors["murmur3"] = str(e)
+        c.update(PINNED_MURMUR)
+    return c, errors
+
+
+def _fasthash_constants(tree):
     c = {}
     mix = _int_consts(_func(tree, "_fhmix64"))
     if len(mix) != 3:
@@ -142,6 +168,11 @@ def hash_constants():
     if len(f32) != 1:
         raise TranslateError(f"fasthash32: expected one literal, found {f32}")
     c["fh32_shift"] = f32[0]
+    return c
+
+
+def _murmur_constants(tree):
+    c = {}
     fm = _int_consts(_func(tree, "_fmix32"))
     if len(fm) != 5:
         raise TranslateError(f"_fmix32: expected 5 literals, found {fm}")
@@ -423,7 +454,7 @@ def _write_if_changed(path, text):
 def run():
     """returns dict(changed=[...], fingerprints={...}); raises TranslateError"""
     changed = []
-    c = hash_constants()
+    c, section_errors = hash_constants()
     o = other_constants()
     if _write_if_changed(os.path.join(GEN, "Constants.lean"), render_constants(c, o)):
         changed.append("Constants.lean")
@@ -437,7 +468,16 @@ def run():
     kch, kerr = kernels.run()
     kerr = merr + kerr
     changed += kch
-    return {"changed": changed, "fingerprints": fingerprints(), "kernel_errors": kerr}
+    import kernels2
+    kch2, kerr2 = kernels2.run()
+    kerr += kerr2
+    changed += kch2
+    import schema
+    kch3, kerr3 = schema.run()
+    kerr += kerr3
+    changed += kch3
+    kerr += [f"hashes.py section {k}: {v}" for k, v in section_errors.items()]
+    return {"changed": changed, "fingerprints": fingerprints(), "kernel_errors": kerr, "section_errors": section_errors}
 
 
 if __name__ == "__main__":
